@@ -286,6 +286,27 @@ def run_case(ctx, case):
     got = read_target(os.path.join(root0, rel), kind)
     if not (got[0] == "value" and model.typed_eq(got[1], new)):
         raise RuntimeError(f"unfaulted run did not produce the new content: {got[0]}")
+    # 1b. the replacing step fails once (I/O error): whatever the code does next, it still never writes the target in
+    # place - a crash or a reader could meet it at any of those steps
+    import errno
+
+    if case["part"] == 0:
+        for st in steps:
+            if st["kind"] not in ("rename", "replace") or not st["ev"].rstrip(")").endswith(rel):
+                continue
+            rootE = os.path.join(base, f"e{st['k']}")
+            os.makedirs(rootE)
+            resE = faultrun.run(setup, op, rootE, plan=("err", st["k"], errno.EIO))
+            ctx.monitor("atomic_policy")
+            for st2 in (resE.get("steps") or [])[st["k"] + 1:]:
+                if st2["kind"] in ("open", "truncate") and st2.get("mut") and \
+                        st2["ev"].split("(")[1].split(" ")[0].rstrip(")") == rel:
+                    ctx.violation("target-written-in-place", "after a failed replacing step the target file itself was opened for writing / truncated",
+                                  {"scenario": case, "failed_step": st["ev"], "step": st2})
+                    return
+            import shutil
+
+            shutil.rmtree(rootE, ignore_errors=True)
     # 2. enumerate faults
     plans = []
     for st in steps:
